@@ -7,12 +7,19 @@
 
 package locker
 
+// held (ghost): the names this goroutine holds (a sequential view: what Lock adds, Unlock removes).
+//@ ghost field Locker.held set[string]
+
 //@ func (l *Locker) Lock(name string)
 //@   props C08 C07
 //@   trusted
-//@   modifies nothing
+//@   requires #recv: l != nil
+//@   ensures #held: l.held == setAdd(old(l.held), name)
+//@   modifies l.held
 
 //@ func (l *Locker) Unlock(name string) error
 //@   props C08 C07
 //@   trusted
-//@   modifies nothing
+//@   requires #recv: l != nil
+//@   ensures #released: l.held == setRemove(old(l.held), name)
+//@   modifies l.held
